@@ -35,13 +35,16 @@ DecimalSpellings == {"canon", "dot", "nocomma", "tiny"}
 OtherSpellings   == {"plus", "minus", "exp", "nan", "inf", "infinity", "twosep", "space", "hex", "empty"}
 Spellings == DecimalSpellings \cup OtherSpellings
 
-TextLen(sp, n, f) == CASE sp = "nocomma" -> n [] OTHER -> n + 1 + f
+\* the decimal comma is part of the d format: a text written without it takes the place the comma needs as well,
+\* because it is written back with one -- except next to a currency without decimals, whose amounts the library
+\* writes without the comma
+TextLen(sp, n, f, commaless) == CASE sp = "nocomma" -> (IF commaless THEN n ELSE n + 1) [] OTHER -> n + 1 + f
 
 Accept(fld, prec, sp, n, f) ==
   /\ sp \in DecimalSpellings
   /\ n >= 1
   /\ (sp = "nocomma" => f = 0)
-  /\ TextLen(sp, n, f) <= fld.maxlen
+  /\ TextLen(sp, n, f, fld.cur /\ prec = 0) <= fld.maxlen
   /\ (fld.cur => f <= prec)
 
 (* canonical digit-string form: no leading zeros in int (kept "0"), frac as written *)
@@ -82,7 +85,7 @@ Spec == Init /\ [][Next]_vars
 
 OnlyDecimals       == Accept(fld, prec, sp, n, f) => sp \in DecimalSpellings
 PrecisionRespected == (Accept(fld, prec, sp, n, f) /\ fld.cur) => f <= prec
-LengthRespected    == Accept(fld, prec, sp, n, f) => TextLen(sp, n, f) <= fld.maxlen
+LengthRespected    == Accept(fld, prec, sp, n, f) => TextLen(sp, n, f, fld.cur /\ prec = 0) <= fld.maxlen
 
 TableDisjoint == ZeroDecimal \cap ThreeDecimal = {} /\ ZeroDecimal \cap FourDecimal = {} /\ ThreeDecimal \cap FourDecimal = {}
                  /\ TwoDecimalSample \cap (ZeroDecimal \cup ThreeDecimal \cup FourDecimal) = {}
